@@ -52,7 +52,14 @@ package ports
 //@   ensures res1.Action == "rejected" ==> len(res0) == 0 && (res1.StatusCode == 404 || res1.StatusCode == 503)
 //@   ensures res1.Action == "routed" || res1.Action == "rejected" || res1.Action == "fallback"
 
+// calls of the per-endpoint collector, by outcome (so that the engines' Record* helpers can be held to "one call, with
+// the right status")
+//@ ghost var colSuccess int
+//@ ghost var colError int
 //@ interface StatsCollector.RecordRequest
+//@   modifies gvar colSuccess, gvar colError
+//@   records colSuccess = old(colSuccess) + ite(status == "success", 1, 0)
+//@   records colError = old(colError) + ite(status == "success", 0, 1)
 //@ interface StatsCollector.RecordModelRequest
 
 // ---- C17: the security chain as seen by the production wiring
@@ -76,8 +83,14 @@ package ports
 //@   ensures true
 //@ interface SecurityMetricsService.RecordViolation
 
-//@ interface Filter.Apply
-//@   ensures res1 == nil ==> res0 != nil
+// the model filter as the discovery service sees it (items: the listing, nameExtractor: how an item is named);
+// passes / reflLen / reflIndex / fnapp: see internal/adapter/filter's contracts, whose GlobFilter.Apply refines this
+//@ interface Filter.Apply(ctx, config, items, nameExtractor)
+//@   requires typeis(items, "[]*domain.ModelInfo") && (config != nil ==> len(config.Include) < 1000000 && len(config.Exclude) < 1000000)
+//@   modifies filter.GlobFilter.patternCache[all]
+//@   ensures res1 == nil ==> res0 != nil && fresh(res0)
+//@   ensures res1 == nil ==> forall k int :: 0 <= k && k < len(res0.Accepted) ==> (exists j int :: 0 <= j && j < reflLen(items) && res0.Accepted[k] == reflIndex(items, j)) && passes(config, fnapp(nameExtractor, res0.Accepted[k]))
+//@   ensures res1 == nil ==> forall j int :: 0 <= j && j < reflLen(items) && passes(config, fnapp(nameExtractor, reflIndex(items, j))) ==> (exists k int :: 0 <= k && k < len(res0.Accepted) && res0.Accepted[k] == reflIndex(items, j))
 
 //@ interface MetricsExtractor.ExtractFromChunk
 //@   ensures res == nil || finiteMetrics(res)
